@@ -36,8 +36,8 @@ ASSUMPTIONS = [
 ]
 
 CPU = 3.0
-MAX_STATES = {'quick': 40, 'thorough': 300}
-SEARCH = {'quick': dict(n=6, beam=5, depth=4), 'thorough': dict(n=16, beam=8, depth=6),
+MAX_STATES = {'quick': 40, 'thorough': 120}
+SEARCH = {'quick': dict(n=6, beam=5, depth=4), 'thorough': dict(n=10, beam=6, depth=5),
           'template': dict(n=10, beam=6, depth=4)}
 
 
@@ -339,7 +339,7 @@ def shard(ctx, acc):
     guard.limit_memory(4)
     env.set_options(dd, ['in.smt2', 'out.smt2', '/bin/true'])
     muts = all_mutators(dd)
-    total = 96 if ctx.quick else 1600
+    total = 96 if ctx.quick else 640
 
     def body(case):
         nt, stats = run_inproc(dd, case, acc, ctx.tier, muts)
@@ -357,7 +357,7 @@ def shard(ctx, acc):
             acc.case(dict(script=t), nontrivial=nt, classes=['inproc-template'], sample=dict(script=t, **stats))
     runner.hyp_run(ctx, inproc_case(), body, ctx.share(total))
     n = [0]
-    total2 = 48 if ctx.quick else 1200
+    total2 = 48 if ctx.quick else 800
 
     def body2(case):
         n[0] += 1
